@@ -57,8 +57,9 @@ def run(ck, prog, ctx):
         if len(t.args) < 3:
             ck.undecided("ROLE", base + "/%d" % i, "unexpected arity", where=b.where(t.line))
             continue
-        tot = len_roles(pv.of_operand(b, t.args[1]))
-        cur = len_roles(pv.of_operand(b, t.args[2]))
+        # a private helper may receive the counts as parameters: follow them to the call sites inside the crate
+        tot = len_roles(pv.through_callers(pv.of_operand(b, t.args[1])))
+        cur = len_roles(pv.through_callers(pv.of_operand(b, t.args[2])))
         # total
         rec = [r for r in tot if r[0] == "records"]
         ids = [r for r in tot if r[0] == "ids"]
@@ -134,6 +135,13 @@ def run(ck, prog, ctx):
     if calc is None:
         ck.undecided("GUARD", "calculate", "private helper InformationContent::calculate not found: ratio and guards are checked wherever the arithmetic now lives")
         bodies = [prog.body(IC + "::" + s) for s in SETTERS if prog.body(IC + "::" + s)]
+        # ... and the crate functions the setters reach (the arithmetic may have moved into free helper functions)
+        seen_ids = {b_.id for b_ in bodies}
+        for rid in sorted(prog.reachable_bodies([b_.id for b_ in bodies])):
+            rb_ = prog.bodies.get(rid)
+            if rb_ is not None and rb_.id not in seen_ids and rb_.kind in ("Fn", "AssocFn") and not rb_.test and float_div_sites(rb_):
+                bodies.append(rb_)
+                seen_ids.add(rb_.id)
     else:
         bodies = [calc]
     ai = absint.Interp(prog)
@@ -144,6 +152,9 @@ def run(ck, prog, ctx):
             if site["kind"] == "div":
                 c = ai.class_at(b, site["pos"], site["den"])
                 ok = c in (absint.P, absint.NZ) or c is None
+                if not ok and c == absint.T and b is not calc and not b.reachable and params_of(pv.of_operand(b, site["den"]), b.id):
+                    ck.undecided("GUARD", "%s/div/%d" % (b.short, n), "%s divides by a parameter of a private helper: whether it is non-zero is decided at its call sites, which this rule does not follow" % b.short, where=b.where(site["line"]))
+                    continue
                 ck.ob("GUARD", "%s/div/%d" % (b.short, n), ok, "%s: divisor %s" % (b.short, "proven non-zero (class %s)" % c if ok else "can be 0 (class %s): IC would be NaN/inf" % c), where=b.where(site["line"]))
                 if b is calc:
                     pn = params_of(pv.of_operand(b, site["num"]), b.id)
@@ -153,8 +164,14 @@ def run(ck, prog, ctx):
             else:
                 c = ai.class_at(b, site["pos"], site["arg"])
                 ok = c == absint.P or c is None
+                if not ok and c == absint.T and b is not calc and not b.reachable and params_of(pv.of_operand(b, site["arg"]), b.id):
+                    ck.undecided("GUARD", "%s/ln/%d" % (b.short, n), "%s takes the logarithm of a value computed from the parameters of a private helper: positivity is decided at its call sites" % b.short, where=b.where(site["line"]))
+                    continue
                 ck.ob("GUARD", "%s/ln/%d" % (b.short, n), ok, "%s: ln argument %s" % (b.short, "proven positive" if ok else "not proven positive (class %s)" % c), where=b.where(site["line"]))
-    ck.floor("GUARD", "div/ln sites in the IC computation", nsites, 2)
+    if calc is not None or nsites:
+        ck.floor("GUARD", "div/ln sites in the IC computation", nsites, 2)
+    else:
+        ck.undecided("GUARD", "calculate/sites", "no float division / ln found in the setters or in the functions they reach")
 
     # ---- FORMULA: the value computed is -ln(current / total)
     ck.rule("FORMULA", "the non-constant result of InformationContent::calculate, extracted as an expression over (total, current) and normalised (ln opaque), equals -ln(current/total)")
